@@ -575,6 +575,19 @@ theorem not_allDirs_first (fs : FS) (root : P)
 theorem prefix_take_eq {root p : P} (hp : root <+: p) : p.take root.length = root := by
   obtain ⟨t, rfl⟩ := hp; simp
 
+theorem commonLen_append (r t : P) : commonLen r (r ++ t) = r.length := by
+  induction r with
+  | nil => cases t <;> simp [commonLen]
+  | cons a s ih => simp [commonLen, ih]
+
+/-- for a path at or below the root `filepath.Rel` is `.` or the components below the root -/
+theorem relParts_of_prefix (root p : P) (hp : root <+: p) :
+    relParts root p = if p = root then [[46]] else p.drop root.length := by
+  obtain ⟨t, rfl⟩ := hp
+  unfold relParts
+  rw [commonLen_append]
+  simp
+
 /-- **`internal.EnsureNoSymlinks` with its `Lstat` calls on the resolving file system is the lexical guard** -/
 theorem guardR_eq (fs : FS) (root p : P) (hinv : RInv fs root) (hroot : root ≠ []) (hd : NoDots p) (hp : root <+: p) :
     ensureNoSymlinksR fs root p = ensureNoSymlinks fs root p := by
@@ -582,6 +595,7 @@ theorem guardR_eq (fs : FS) (root p : P) (hinv : RInv fs root) (hroot : root ≠
   have hdr : NoDots root := by rw [← htake]; exact nodots_take p hd _
   have hrl : root.length ≤ p.length := hp.length_le
   unfold ensureNoSymlinksR ensureNoSymlinks
+  rw [relParts_of_prefix root p hp]
   by_cases hall : AllDirs fs root
   · -- every ancestor of the destination exists
     by_cases hpr : p = root
